@@ -25,6 +25,20 @@ CHECKS = {
         'note': TRUST + ' Not decided: exact multiplicity of delivery across nested continues at run time.',
         'technique': 'static analysis: MIR must-pass-through + guard-atom dataflow + field provenance',
     },
+    'C03': {
+        'text': 'Every iteration over a HashMap/HashSet in the three crates (42 sites, enumerated from resolved MIR calls) is '
+                'classified from its per-element work: order-free by construction (map/set writes, integer accumulation, '
+                'Ord min/max/sort) or listed in a frozen table with the exact sink signature confirmed by reading; '
+                'comparators named there are re-validated to compare the whole key. Plus a who-may-call rule for ambient '
+                'entropy (thread RNG, clock, env, pid, RandomState, pointer exposure): only the story-seed draw, which '
+                'flows into story_seed only, and the stopwatch guarded by async_continue_active; every RNG seed derives '
+                'from story_seed. For the "fresh hash seeds per process" half of C03 this is essentially the whole '
+                'property: a program text with no unordered or ambient input is a function of (program, seed, calls).',
+        'design_ref': 'DESIGN.md §4 C03',
+        'note': TRUST + ' Not decided: float formatting agreement between build profiles; byte identity of compiler '
+                'output beyond "no unordered iteration reaches it"; key collisions of inserts inside order-free loops.',
+        'technique': 'static analysis: iterator taint + loop/closure effect classification over MIR, entropy who-may-call, seed provenance',
+    },
 }
 
 NOT_APPLICABLE = {
